@@ -416,7 +416,7 @@ Proof.
   apply mem_In in Hin. rewrite Hin. simpl. apply Nat.eqb_neq. exact Hne.
 Qed.
 
-(** over arbitrary histories: while nobody with authority re-admits [a], every tx whose first
+(** over arbitrary histories: while nobody with authority lets [a] back in, every tx whose first
     privileged leaf is signed by [a] is rejected and [a] stays without permission *)
 Fixpoint no_grant_to (a : addr) (h : list (list msg)) : bool :=
   match h with
